@@ -855,6 +855,9 @@ func genC14(seed uint64, tier string) Scenario {
 		cs.Cuts, cs.PauseUs = nil, nil
 		cs.StopAfter = len(cs.Frames[0].Text) + 1 + 1 + g.IntN(len(cs.Frames[1].Text)-1)
 		cs.End = "close"
+		// it stays for three quiet points: the cancellation (which may itself be
+		// triggered by the first one) has settled before the client goes away
+		cs.QuietPoints = 3
 		s.Clients = append(s.Clients, cs)
 	}
 	if !s.Cancels && !second && g.Pct(12) {
